@@ -656,7 +656,15 @@ func (fx *FnCtx) handleLoop(li *loopInfo, incoming []*Edge, rets *[]retInfo) []*
 		if k, ok := constTripCount(li); ok && k <= 16 {
 			return fx.unrollLoop(li, &LoopSpec{Unroll: k}, incoming, rets)
 		}
-		fx.fail("loop %d has no invariant", li.ord)
+		if !isSliceRangeLoop(li) {
+			fx.fail("loop %d has no invariant", li.ord)
+		}
+		// a range loop over a slice, array or string needs no annotation for its index: the bounds of
+		// the hidden index hold by construction (assumed below); everything else the loop changes
+		// is unknown after it
+		if spec == nil {
+			spec = &LoopSpec{}
+		}
 	}
 	hdr := li.header
 	reachE := orReach(incoming)
@@ -691,6 +699,19 @@ func (fx *FnCtx) handleLoop(li *loopInfo, incoming []*Edge, rets *[]retInfo) []*
 		}
 		fx.validRefs(v, stH, reachE)
 		hv[phi] = v
+	}
+	if isSliceRangeLoop(li) {
+		// -1 <= hidden index <= len-1 at the head of a range loop (Go semantics of range)
+		if idx, lenV := rangeLoopParts(li); idx != nil {
+			if lv, ok := fx.vals[lenV]; ok || isConstValue(lenV) {
+				if !ok {
+					lv = fx.val(lenV)
+				}
+				tc := fx.tc
+				x := hv[idx].L[0]
+				fx.assume(Implies(reachE, And(tc.IdxLe(tc.IdxSub(tc.IdxNum(0), tc.IdxNum(1)), x), tc.IdxLt(x, tc.IdxAdd(lv.L[0], tc.IdxNum(0))), tc.IdxLe(lv.L[0], tc.IdxNum(1<<62)))))
+			}
+		}
 	}
 	envH := fx.loopEnv(li, stH, hv)
 	// Equational invariants become substitutions: a top-level conjunct "h == t" where h is a
@@ -1064,4 +1085,31 @@ func isSliceRangeLoop(li *loopInfo) bool {
 		return true
 	}
 	return false
+}
+
+func isConstValue(v ssa.Value) bool { _, ok := v.(*ssa.Const); return ok }
+
+// rangeLoopParts returns the hidden index phi of a slice range loop and the length it is compared with.
+func rangeLoopParts(li *loopInfo) (*ssa.Phi, ssa.Value) {
+	var idx *ssa.Phi
+	for _, ins := range li.header.Instrs {
+		phi, ok := ins.(*ssa.Phi)
+		if !ok {
+			break
+		}
+		if phi.Comment == "rangeindex" {
+			idx = phi
+		}
+	}
+	if idx == nil {
+		return nil, nil
+	}
+	for _, ins := range li.header.Instrs {
+		if iff, ok := ins.(*ssa.If); ok {
+			if b, ok := iff.Cond.(*ssa.BinOp); ok && b.Op == token.LSS {
+				return idx, b.Y
+			}
+		}
+	}
+	return nil, nil
 }
